@@ -144,10 +144,10 @@ def build(items):
                 raise CaseInvalid('rule')
             id_ = tuple(it['id'])
             prevs = [tuple(p) for p in it.get('prevs', [])]
-            if not id_ or not all(isinstance(x, int) and not isinstance(x, bool) and 0 <= x < 50 for x in id_):
+            if not id_ or not all(isinstance(x, int) and not isinstance(x, bool) and -50 < x < 50 for x in id_):
                 raise CaseInvalid('id')
             for p in prevs:
-                if not p or not all(isinstance(x, int) and not isinstance(x, bool) and 0 <= x < 50 for x in p):
+                if not p or not all(isinstance(x, int) and not isinstance(x, bool) and -50 < x < 50 for x in p):
                     raise CaseInvalid('prev')
         except CaseInvalid:
             raise
@@ -194,6 +194,8 @@ def judge(items, no_gaps):
     def visible(p, q):
         # q visible from p (positions): q's parent is a prefix of p, and q precedes p's ancestor at that level
         l = len(q)
+        if any(x < 0 for x in q):
+            return False          # a negative number is not a position
         return l <= len(p) and q[:l - 1] == p[:l - 1] and q[l - 1] < p[l - 1]
 
     def check_th(th):
@@ -467,6 +469,7 @@ def enum_shapes(part, parts, H, limit=None):
     count = 0
     idx = 0
     positions3 = [(0,), (1,), (2,), (3,)]
+    neg = [(-1,)]
     for n in (1, 2, 3):
         pos = [(i,) for i in range(n)]
         id_choices = []
@@ -479,7 +482,7 @@ def enum_shapes(part, parts, H, limit=None):
             prev_opts = []
             for i, r in enumerate(rules):
                 name = STEP_VOCAB[r][0]
-                cands = [p for p in positions3[:n]]
+                cands = [p for p in positions3[:n]] + neg
                 if name in ('implies_intr',):
                     po = [[p] for p in cands]
                 elif name == 'implies_elim':
@@ -538,7 +541,7 @@ def proof_strategy():
                 if counter['lie'] > 0 and draw(st.integers(0, 3)) == 0:
                     counter['lie'] -= 1
                     ident = prefix + (draw(st.integers(0, 7)),) if draw(st.booleans()) else (draw(st.integers(0, 7)),)
-                allpos = local + [prefix + (j,) for j in range(i + 1, n)] + [prefix + (i,)]
+                allpos = local + [prefix + (j,) for j in range(i + 1, n)] + [prefix + (i,)] + [(-1,), prefix + (-1,)]
                 good = local
 
                 def pick(k):
@@ -624,7 +627,7 @@ def fitted_proof_strategy():
             tgt['id'] = [draw(st.integers(0, 6))] if draw(st.booleans()) else tgt['id'][:-1] + [draw(st.integers(0, 6))]
         elif pert == 'prev' and tgt['prevs']:
             k = draw(st.integers(0, len(tgt['prevs']) - 1))
-            tgt['prevs'][k] = draw(st.sampled_from([[0], [1], [2], [3], [4], [5], [0, 0], [1, 0], [1, 1], [0, 1]]))
+            tgt['prevs'][k] = draw(st.sampled_from([[0], [1], [2], [3], [4], [5], [0, 0], [1, 0], [1, 1], [0, 1], [-1], [-2], [1, -1]]))
         elif pert.startswith('stated') and tgt['rule'] not in ('sorry', ''):
             v = judge(its, False)
             # natural result of the target line: recompute by judging the prefix ending there (top-level lines only)
